@@ -398,7 +398,10 @@ func runGroups(bin string, groups []*Group, nproc int, race bool, limit time.Dur
 					return
 				}
 				var w *worker
-				for _, job := range g.Jobs {
+				queue := append([]*Job(nil), g.Jobs...)
+				for len(queue) > 0 {
+					job := queue[0]
+					queue = queue[1:]
 					if w == nil {
 						var err error
 						w, err = startWorker(bin, g.Cfg.Text, race)
@@ -438,8 +441,16 @@ func runGroups(bin string, groups []*Group, nproc int, race bool, limit time.Dur
 					onResult(jobOutcome{job: job, cfg: g.Cfg, res: res})
 					mu.Unlock()
 					if res.Retire {
+						// the worker could not unwind a run completely and will not be reused; what is
+						// left of the job goes to a fresh one (the runs of a job are seeded seed+i)
 						w.stop()
 						w = nil
+						if job.Params["enum"] != 1 && res.Runs > 0 && res.Runs < job.Count {
+							rest := *job
+							rest.Seed = job.Seed + uint64(res.Runs)
+							rest.Count = job.Count - res.Runs
+							queue = append([]*Job{&rest}, queue...)
+						}
 					}
 				}
 				if w != nil {
